@@ -25,9 +25,26 @@ def expect_reject(df, date, what, res, stats, targets=None, payload=None):
             engine.simulate(df, date, targets=targets, fill_missing=False)
     except Exception as ex:  # noqa: BLE001
         stats["rejected_with"][type(ex).__name__] = stats["rejected_with"].get(type(ex).__name__, 0) + 1
+    else:
+        res.add_violation(f"accepted:{what}", f"malformed data are simulated instead of rejected: {what} on {date}",
+                          dict(kind="accepted", fault=what, date=date, **(payload or {})), True)
+        return False
+    # the same faulty table with its rows in another order (the members of a group are then not adjacent, the
+    # fault stands at another position): a check that only looks at neighbouring / first / last rows lets it through
+    import random as _random
+
+    perm = list(range(len(df)))
+    _random.Random(stats["faults"]).shuffle(perm)
+    d2 = df.iloc[perm].reset_index(drop=True)
+    stats["shuffled"] = stats.get("shuffled", 0) + 1
+    try:
+        with warnings.catch_warnings():
+            warnings.simplefilter("ignore")
+            engine.simulate(d2, date, targets=targets, fill_missing=False)
+    except Exception:  # noqa: BLE001
         return True
-    res.add_violation(f"accepted:{what}", f"malformed data are simulated instead of rejected: {what} on {date}",
-                      dict(kind="accepted", fault=what, date=date, **(payload or {})), True)
+    res.add_violation(f"accepted-shuffled:{what}", f"malformed data are simulated instead of rejected once the rows are re-ordered: {what} on {date}, row order {perm}",
+                      dict(kind="accepted", fault=what, date=date, row_order=perm, table=json.loads(d2.to_json(orient="split", default_handler=str)), **(payload or {})), True)
     return False
 
 
@@ -276,7 +293,12 @@ def u9(ctx, res, stats):
         elif f == "self":
             i = rnd.randrange(n); t["p_id_elternteil_1"][i] = t["p_id"][i]
         elif f == "varies" and n > 1:
-            t["hh_id"] = [0] * n; t["miete_hh"] = [100.0] * (n - 1) + [250.0]
+            # one member of a household of two or more gets another value; the members stand anywhere (not adjacent)
+            big = [h for h in (0, 1) if hh.count(h) > 1]
+            if not big:
+                t["hh_id"] = hh = [0] * n; t["miete_hh"] = [0.0] * n; big = [0]
+            i = rnd.choice([k for k in range(n) if hh[k] == big[0]])
+            t["miete_hh"][i] += 150.0
         elif n > 1 and rnd.random() < 0.5:
             t["p_id_ehepartner"][0] = t["p_id"][1]
         tables.append(t)
@@ -326,7 +348,7 @@ def run(ctx, res):
     res.rule = ("fault injection into generated valid populations through the public API: every fault class of the property (missing / duplicate "
                 "p_id; each of the four pointer columns dangling or self-referential; every *_hh input varying within a household; contradictory "
                 "joint-assessment flags; missing required columns; duplicate column names; fractional / out-of-range / object / NaN / too large "
-                "values for the documented type) at random eligible rows, and pairs of faults — each must raise; dtype variants of a valid "
+                "values for the documented type) at random eligible rows, and pairs of faults — each must raise, as submitted and once more with the rows of the faulty table re-ordered (group members not adjacent); dtype variants of a valid "
                 "population (narrower ints, float32, ints and bools as floats) must give unchanged results and a conversion warning. U9: the "
                 "model's convert_cell vs convert_series_to_internal_type on 60 (type, value) cells and `accept` vs _process_and_check_data on "
                 "generated small tables. distinct = distinct faults / variants / cells.")
